@@ -149,7 +149,7 @@ Commit(op, o, k, v, res, lat, alts, dv, fl) ==
   /\ flags' = flags \cup fl
   /\ devUsed' = devUsed \cup dv
   /\ nops' = nops + 1
-  /\ hist' = Ent([op |-> op, o |-> o, k |-> k, v |-> v, exp |-> res, alt |-> alts])
+  /\ hist' = Ent([op |-> op, o |-> o, k |-> k, v |-> v, exp |-> res, alt |-> alts, fl |-> fl])
 
 DoSet(o, k, v) ==
   LET L     == objs[o]
